@@ -1,4 +1,6 @@
 import OtelVerif.Model.C13
+import OtelVerif.Lemmas.C13Faithful
+import OtelVerif.Gen.ConfigSchemas
 /-!
 # C13 — configuration loading is faithful and strict
 
@@ -11,10 +13,11 @@ Property theorems only.
   parts, and every error names an offending entry.
 * `C13_strict` — a key that no field accepts, at any depth (through fields, pointers, slice elements,
   map values), makes strict decoding fail.
-* Faithfulness of the typed and of the effective configuration is per-field behaviour of custom
-  `Unmarshal`/`MarshalText` methods: **not** a theorem here, covered by the differential only
-  (partial); its two known counterexamples on the pinned tree are replayed by the harness
-  (`C13/effective/…`, `C13/queuebatch/…`).
+* `C13_faithful_written`, `C13_faithful_unwritten`, `C13_effective` — decoding onto defaults reflects
+  exactly the written keys, in the typed and in the effective configuration (opaque leaves redacted),
+  for every schema; instantiated on the regenerated built-in schemas.  Partial: positions with a
+  custom `Unmarshal` (`C13_builtin_custom_positions`) and the text round trip of `MarshalText` are
+  covered by the differential only.
 -/
 namespace OtelVerif.C13
 
@@ -562,10 +565,68 @@ example : decodeOk (.struct [("timeout", false, .scalar), ("", true, .struct [("
             (.map [("endpoint", .scalar 1), ("timeout", .scalar 3)]) = true := by
   simp [decodeOk, decodeFields, structKeys, squashKeys, lookupVal]
 
-/-! The faithfulness clause (typed and effective configuration reflect exactly the written keys,
-siblings untouched) quantifies over every field of every built-in configuration including the ones
-with custom `Unmarshal`/`MarshalText`; it is *not* a theorem of this file (partial).  The
-differential harness checks it per written key on the real structs (`faithful`, `effective`,
-`sibling` oracles). -/
+/-! ## (e) faithfulness: typed and effective configuration reflect exactly the written keys
+
+`decodeV` / `encodeV` (Model/C13Faithful.lean) over key-space schemas `KS`; the schemas and factory
+defaults of the built-in components are **regenerated by reflection** (`Gen/ConfigSchemas.lean`). -/
+
+/-- **Typed configuration**: a key written at a leaf position (scalar, text kind, opaque string, slice,
+map — through any nesting of structs and optionals, squashed structs inlined) holds exactly the
+written value after decoding onto any defaults of the right shape. -/
+theorem C13_faithful_written (S : KS) (d : TV) (v : Val) (t : TV) (p : List String) (x : Val)
+    (hs : shape S d = true) (hd : decodeV S d v = some t) (hv : valGet v p = some x)
+    (hk : (kindAt S p).map isLeafKind = some true) : getS S t p = some (.atom x) :=
+  written_reflected S d v t p x hs hd hv hk
+
+/-- **Siblings**: a position at or above which nothing is written keeps its default (a nil optional
+counts as the zero value of its type): writing one setting never changes another one. -/
+theorem C13_faithful_unwritten (S : KS) (d : TV) (v : Val) (t : TV) (p : List String)
+    (hs : shape S d = true) (hd : decodeV S d v = some t) (hu : untouched v p = true) :
+    getPath S t p = getPath S d p :=
+  untouched_unchanged S d v t p hs hd hu
+
+/-- **Effective configuration**: the marshalled typed configuration shows every written leaf with its
+written value — and the redaction marker where the leaf is an opaque string. -/
+theorem C13_effective (S : KS) (d : TV) (v : Val) (t : TV) (p : List String) (x : Val)
+    (hs : shape S d = true) (hd : decodeV S d v = some t) (hv : valGet v p = some x)
+    (hk : (kindAt S p).map isLeafKind = some true) :
+    evGet (encodeV S t) p = some (shown ((kindAt S p).map isOpaqueKind) x) :=
+  effective_shows S t p x (decode_shape S d v t hs hd) (written_reflected S d v t p x hs hd hv hk) hk
+
+/-- non-vacuity: writing `tls::key_pem` and `endpoint` below a nil optional; `read_buffer_size` untouched -/
+example :
+    let S : KS := .struct [("grpc", .ptr (.struct [("endpoint", .scalar), ("read_buffer_size", .scalar),
+                    ("tls", .ptr (.struct [("key_pem", .opaque), ("min_version", .scalar)]))]))]
+    let d : TV := .struct [("grpc", .struct [("endpoint", .atom (.scalar 1)), ("read_buffer_size", .atom (.scalar 2)), ("tls", .nilp)])]
+    let v : Val := .map [("grpc", .map [("tls", .map [("key_pem", .scalar 77)]), ("endpoint", .scalar 5)])]
+    (decodeV S d v).map (fun t => (evGet (encodeV S t) ["grpc", "tls", "key_pem"], evGet (encodeV S t) ["grpc", "endpoint"],
+                                    getPath S t ["grpc", "read_buffer_size"]))
+      = some (some .redacted, some (.val (.scalar 5)), some (.atom (.scalar 2))) := by
+  simp [decodeV, decodeFs, lookupVal, zero, zeroF, encodeV, encodeF, evGet, getPath, getF]
+
+/-! ### regenerated obligations over the built-in components -/
+
+open OtelVerif.Gen in
+/-- every factory default has the shape of its schema (the hypothesis of the theorems above) -/
+theorem C13_builtin_defaults_shaped : ∀ c ∈ ConfigSchemas.components, shape c.2.1 c.2.2 = true := by decide
+
+open OtelVerif.Gen in
+/-- no struct level of a built-in configuration (squashed structs inlined) has two fields with the same
+key: a written key never feeds two settings -/
+theorem C13_builtin_keys_unique : ∀ c ∈ ConfigSchemas.components, keysUnique c.2.1 = true := by decide
+
+open OtelVerif.Gen in
+/-- no built-in configuration has a map keyed by an opaque string (the JSON-map-key leak of C14 is not reachable) -/
+theorem C13_builtin_no_opaque_map_key : ∀ c ∈ ConfigSchemas.components, noOpaqueKey c.2.1 = true := by decide
+
+open OtelVerif.Gen in
+/-- the positions decoded by a type's own `Unmarshal` — where the generic theorems are *not* claimed and
+only the differential speaks (**partial**).  A new custom `Unmarshal` in a built-in configuration
+changes the regenerated list and this obligation stops checking until it has been reviewed. -/
+theorem C13_builtin_custom_positions : ConfigSchemas.customPositions =
+    [("exporters/otlp", "", "otlpexporter.Config"),
+     ("exporters/otlp", "sending_queue", "queuebatch.Config"),
+     ("exporters/otlphttp", "sending_queue", "queuebatch.Config"),
+     ("receivers/otlp", "", "otlpreceiver.Config")] := by decide
 
 end OtelVerif.C13
